@@ -198,12 +198,42 @@ class Ctx(object):
                 self.absorb(sub)
             return
         mp = multiprocessing.get_context('fork')
-        with mp.Pool(jobs) as pool:
+        counter = mp.Value('i', 0)
+        with mp.Pool(jobs, initializer=_pin, initargs=(counter,)) as pool:
             for d in pool.imap_unordered(_Call(self, fn), tasks, chunksize):
                 if 'tool_error' in d:
                     pool.terminate()
                     raise ToolError(d['tool_error'])
                 self.absorb(d)
+
+
+def _pin(counter):
+    """Pool initializer: one CPU per worker.  The thread-baton hand-offs of
+    pysched are 3-4x cheaper when all threads of a worker share a core."""
+    try:
+        with counter.get_lock():
+            i = counter.value
+            counter.value += 1
+        cpus = sorted(os.sched_getaffinity(0)) if _ALL_CPUS is None \
+            else _ALL_CPUS
+        os.sched_setaffinity(0, {cpus[i % len(cpus)]})
+    except (AttributeError, OSError):
+        pass
+
+
+try:
+    _ALL_CPUS = sorted(os.sched_getaffinity(0))
+except (AttributeError, OSError):
+    _ALL_CPUS = None
+
+
+def pin_self():
+    """Pin the calling process to one CPU (serial harness runs)."""
+    try:
+        if _ALL_CPUS and len(os.sched_getaffinity(0)) > 1:
+            os.sched_setaffinity(0, {_ALL_CPUS[-1]})
+    except (AttributeError, OSError):
+        pass
 
 
 class _Call(object):
